@@ -6,6 +6,7 @@ package packets
 // Nothing is judged here; PacketTrace.tla judges.
 
 import (
+	"io"
 	"bytes"
 	"encoding/binary"
 	"encoding/json"
@@ -555,6 +556,87 @@ func TestVerifC15(t *testing.T) {
 			r["ev"], r["scen"], r["kind"], r["ctor"], r["iterations"] = "Roundtrip", id, "ctor-concurrent", ctors[g], counts[g]
 			encMu.Lock()
 			enc.Encode(r)
+			encMu.Unlock()
+		}
+	}
+	// a STREAM of encoded packets, each padded to a multiple of a stride (the ring-buffer path: ReadPacketPlusPad): the
+	// decoder must consume exactly the padded length of every packet, also when a packet's length is itself a multiple
+	// of the stride, and give back every packet of the stream in order
+	{
+		nstream := 40
+		if os.Getenv("VERIF_TIER") != "quick" {
+			nstream = 1500
+		}
+		for k := 0; k < nstream; k++ {
+			id++
+			stride := []int{8, 16, 64, 256, 8192}[rng.Intn(5)]
+			npk := 2 + rng.Intn(5)
+			var stream []byte
+			lens := []int{}
+			seqs := []int{}
+			for j := 0; j < npk; j++ {
+				p := NewPacket(0x10, uint32(7+k), uint32(1000+j), 0)
+				nval := 1 + rng.Intn(40)
+				if rng.Intn(2) == 0 { // aim at an encoded length that is a multiple of the stride
+					probe := NewPacket(0x10, 1, 1, 0)
+					probe.NewData(make([]int16, 1), []int16{1})
+					hdr := probe.Length() - 2
+					for n := 1; n < 5000; n++ {
+						if (hdr+2*n)%stride == 0 {
+							nval = n
+							break
+						}
+					}
+				}
+				d := make([]int16, nval)
+				for i := range d {
+					d[i] = int16(rng.Intn(65536) - 32768)
+				}
+				p.NewData(d, []int16{1})
+				b := p.Bytes()
+				lens = append(lens, len(b))
+				seqs = append(seqs, 1000+j+1) // (NewData advances the sequence number)
+				stream = append(stream, b...)
+				if pad := (stride - len(b)%stride) % stride; pad > 0 {
+					stream = append(stream, make([]byte, pad)...)
+				}
+			}
+			res := c15res{"panics": []string{}, "decode_err": "", "rt": map[string]bool{}}
+			func() {
+				defer func() {
+					if r := recover(); r != nil {
+						res["panics"] = append(res["panics"].([]string), "stream: "+fmt.Sprint(r))
+					}
+				}()
+				rd := bytes.NewReader(stream)
+				got := []int{}
+				consumed := []int{}
+				for {
+					before := rd.Len()
+					p, err := ReadPacketPlusPad(rd, stride)
+					if err != nil || p == nil {
+						if err != nil && err != io.EOF && rd.Len() > 0 {
+							res["decode_err"] = err.Error()
+						}
+						break
+					}
+					got = append(got, int(p.SequenceNumber()))
+					consumed = append(consumed, before-rd.Len())
+				}
+				okSeq := len(got) == len(seqs)
+				for i := 0; okSeq && i < len(got); i++ {
+					okSeq = got[i] == seqs[i]
+				}
+				okLen := len(consumed) == len(lens)
+				for i := 0; okLen && i < len(consumed); i++ {
+					okLen = consumed[i] == (lens[i]+stride-1)/stride*stride
+				}
+				res["rt"] = map[string]bool{"stream_packets": okSeq, "stream_consumed": okLen}
+				res["got"], res["want"] = got, seqs
+			}()
+			res["ev"], res["scen"], res["kind"], res["ctor"] = "Roundtrip", id, "stream", map[string]any{"stride": stride, "lens": lens}
+			encMu.Lock()
+			enc.Encode(res)
 			encMu.Unlock()
 		}
 	}
